@@ -6,8 +6,8 @@ git diff --stat -- include | tail -2
 cmake --build _build -j 12 > /tmp/confirm_build.log 2>&1; echo "build rc=$?"
 ctest --test-dir _build -j8 --timeout 900 2>&1 | grep "tests passed\|tests failed" 
 cat mutant_out/run.sh | head -5
-echo "--- demo WITH change:"; (cd $WT && timeout 600 sh mutant_out/run.sh > /tmp/confirm_with.log 2>&1; echo "rc=$?"; tail -3 /tmp/confirm_with.log)
-git stash -q -- include
-echo "--- demo WITHOUT change:"; (cd $WT && timeout 600 sh mutant_out/run.sh > /tmp/confirm_without.log 2>&1; echo "rc=$?"; tail -3 /tmp/confirm_without.log)
-git stash pop -q
+echo "--- demo WITH change:"; (cd $WT/mutant_out && timeout 600 sh run.sh > /tmp/confirm_with.log 2>&1; echo "rc=$?"; tail -3 /tmp/confirm_with.log)
+git diff -- include > /tmp/confirm_patch.$$ && git apply -R /tmp/confirm_patch.$$
+echo "--- demo WITHOUT change:"; (cd $WT/mutant_out && timeout 600 sh run.sh > /tmp/confirm_without.log 2>&1; echo "rc=$?"; tail -3 /tmp/confirm_without.log)
+git apply /tmp/confirm_patch.$$ && rm -f /tmp/confirm_patch.$$
 git diff --stat -- include | tail -1
